@@ -4,6 +4,7 @@ package main
 // block-reachability encoding with merged states, loops cut at headers).
 
 import (
+	"sort"
 	"fmt"
 	"go/token"
 	"go/types"
@@ -68,6 +69,8 @@ type deferRec struct {
 }
 
 type Tr struct {
+	// translating a package initialiser: globals are being assigned, not constants yet
+	inInit bool
 	w   *World
 	fn  *ssa.Function
 	c   *Contract
@@ -133,7 +136,9 @@ func (t *Tr) define(prefix string, s Sort, term string) string {
 	}
 	t.n++
 	name := fmt.Sprintf("%s_%d", prefix, t.n)
-	if s != SBool_ && strings.Contains(term, "(ite ") {
+	if s != SBool_ && (strings.Contains(term, "(ite ") || (s == SInt_ && (strings.HasPrefix(term, "(+ ") || strings.HasPrefix(term, "(- ")))) {
+		// (sums too: z3 flattens an expanded sum into the enclosing one, and a
+		// pattern (+ off i) no longer matches (+ off j 1))
 		// z3 expands define-fun before it reads patterns and rejects patterns
 		// that contain ite: a conditional value that may occur in a trigger is
 		// a constant with a defining equation instead of a macro
@@ -294,9 +299,50 @@ func (t *Tr) havocAll(st *State, exceptGhost bool) {
 		v := t.load(st, a)
 		keepLocals = append(keepLocals, saved{a, t.define("keep", v.Sort, v.S)})
 	}
+	// while a package initialiser runs, the globals it has assigned so far are
+	// out of reach of the code it calls (other packages' initialisers, library
+	// constructors): nothing outside this package refers to them yet
+	type savedRow struct {
+		heap string
+		sort Sort
+		base string
+		row  string
+	}
+	var keepRows []savedRow
+	if t.inInit && t.fn != nil && t.fn.Pkg != nil {
+		var names []string
+		for n := range t.fn.Pkg.Members {
+			names = append(names, n)
+		}
+		sort.Strings(names)
+		for _, n := range names {
+			g, ok := t.fn.Pkg.Members[n].(*ssa.Global)
+			if !ok || strings.HasPrefix(g.Name(), "init$") {
+				continue
+			}
+			et := g.Type().Underlying().(*types.Pointer).Elem()
+			a := t.addrOfTerm(t.val(g).S, et)
+			if a.Kind == aArray || a.Kind == aStruct {
+				continue
+			}
+			v := t.load(st, a)
+			kv := t.define("keepg", v.Sort, v.S)
+			keepLocals = append(keepLocals, saved{a, kv})
+			if sl, ok := et.Underlying().(*types.Slice); ok {
+				hn, hs := elemHeapName(sl.Elem()), t.elemHeapSort(sl.Elem())
+				h := t.heapGet(st, hn, hs)
+				base := fmt.Sprintf("(s-base %s)", kv)
+				keepRows = append(keepRows, savedRow{hn, hs, base, t.define("keeprow", Sort("(Array Int "+string(t.vc.sortOf(sl.Elem()))+")"), fmt.Sprintf("(select %s %s)", h, base))})
+			}
+		}
+	}
 	defer func() {
 		for _, k := range keepLocals {
 			t.store(st, k.a, k.v)
+		}
+		for _, r := range keepRows {
+			h := t.heapGet(st, r.heap, r.sort)
+			t.heapSet(st, r.heap, r.sort, fmt.Sprintf("(store %s %s %s)", h, r.base, r.row))
 		}
 	}()
 	keep := map[string]string{}
